@@ -5,7 +5,7 @@
 # patch.diff and demo/run.sh). Never touches /repo's working tree.
 set -u
 ID=$1
-DIR=${2:-/verif/seeded/$ID}
+DIR=${2:-/verif/seeded/$ID}; DIR=$(cd "$DIR" && pwd)
 ORIG=${3:-$(cat "$DIR/ORIGIN" 2>/dev/null || echo /tmp/seed/$ID)}
 WT=/tmp/seedcheck-$ID-$$
 export GOFLAGS=-mod=mod GOPROXY=off
